@@ -32,10 +32,14 @@ fn check_itoa(ctx: &mut Ctx, n: usize, family: &'static str) {
 }
 
 fn check_hex(ctx: &mut Ctx, n: usize, family: &'static str) {
-    // `hexized` is fixed-width (zero padded to 2*size_of::<usize>() digits); the chunk writer strips the zeros.
-    let expected = format!("{:0width$x}", n, width = std::mem::size_of::<usize>() * 2);
+    // The statement fixes the digits ("canonical lowercase hexadecimal"), not a width: `hexized` on the pinned tree pads with
+    // zeros to 2*size_of::<usize>() digits and the chunk writer strips them; a tree that returns the minimal form is as exact.
+    // Compared modulo leading zeros (at least one digit must remain, nothing but lowercase hex digits may occur).
+    let expected = format!("{:x}", n);
+    let canon = |s: &[u8]| -> Option<String> { if s.is_empty() || !s.iter().all(|b| matches!(b, b'0'..=b'9' | b'a'..=b'f')) { return None }
+        let t = std::str::from_utf8(s).ok()?.trim_start_matches('0'); Some(if t.is_empty() { "0".to_string() } else { t.to_string() }) };
     match guarded(|| (ohkami_lib::num::hexized(n), ohkami_lib::num::hexized_bytes(n))) {
-        Ok((got, bytes)) if got == expected && bytes[..] == *expected.as_bytes() => ctx.pass("hex-ok", n >= 10, n >= 10 && (n & 0xf) >= 10),
+        Ok((got, bytes)) if canon(got.as_bytes()).as_deref() == Some(&expected) && canon(&bytes[..]).as_deref() == Some(&expected) => ctx.pass("hex-ok", n >= 10, n >= 10 && (n & 0xf) >= 10),
         Ok((got, bytes)) => ctx.violation(&format!("C20/hexized/{family}/wrong-value"), true,
             || json!({"fn": "hexized", "input": n as u64, "expected": expected, "observed": got, "observed_bytes": crate::core::esc(&bytes)})),
         Err(p) => ctx.violation(&format!("C20/hexized/{family}/panic:{}", panic_kind(&p)), true,
